@@ -2,6 +2,7 @@
 
 #include <yaclib/fault/detail/fiber/mutex.hpp>
 #include <yaclib/fault/detail/fiber/queue.hpp>
+#include <yaclib/fault/inject.hpp>
 
 namespace yaclib::detail::fiber {
 
@@ -31,6 +32,7 @@ class TimedMutex : public Mutex {
     YACLIB_DEBUG(r && _occupied, "about to be locked twice");
     if (r) {
       _occupied = true;
+      YACLIB_VERIF_SYNC(5, this, 0ULL);
     }
     return r;
   }
